@@ -100,7 +100,11 @@ def run(ctx):
                if c.seq[0] == "sort" and "take" in c.seq[1:] and len(c.seq) == 4]
     if quick:
         carried = random.Random(36).sample(carried, min(len(carried), 300))
-    dia = dia + carried
+    # the same order carried through a join that keeps every left row determinate (key join) and then needed by a take whose rows
+    # are consumed by group / aggregate / .. (the take's embedded sort is then the only carrier of the order)
+    cj = relgen.carried_order_join_cases(SAFE, seed=37, variants=2 if quick else 6)
+    ctx.coverage_extra["carried_order_join_cases"] = len(cj)
+    dia = dia + carried + cj
     ctx.coverage_extra["diamond_cases"] = len(dia)
     for label, rng, n, prof in [("let-boundary", None, 0, SAFE), ("diamond", None, 0, SAFE), ("fixed", random.Random(303), 500 if quick else 4000, SAFE), ("seed", ctx.rng, 300 if quick else 4000, SAFE)]:
         cases = letcases if label == "let-boundary" else dia if label == "diamond" else [relgen.make_case(rng, kinds=ORDER_KINDS, max_tr=7, **prof) for _ in range(n)]
